@@ -345,7 +345,8 @@ def decide(pid, tier, only_obligation=None):
                 known_hits.append((ob, kf))
                 continue
             pb = None
-            if ob["backend"] == "kani":
+            n_pb = len([v for v in violations if v[2] and v[2].get("test_src")])
+            if ob["backend"] == "kani" and n_pb < int(os.environ.get("VERIF_MAX_PLAYBACK", "2")):
                 try:
                     pb = kani_playback(ob["_unit"], ob)
                 except Exception as e:  # playback is best-effort
